@@ -9,6 +9,7 @@ import (
 
 	"github.com/jhump/protoreflect/desc"
 	"github.com/jhump/protoreflect/desc/protoparse"
+	"github.com/tableauio/tableau/options"
 	"github.com/tableauio/tableau/xerrors"
 )
 
@@ -75,9 +76,10 @@ func checkProtos(dir string, extra ...string) string {
 	return ""
 }
 
-func genC02Book(r *rand.Rand) (bookSpec, map[string]string) {
+func genC02Book(r *rand.Rand) (bookSpec, *options.HeaderOption) {
 	b := bookSpec{Name: "Fuzz"}
-	var hdr map[string]string
+	var hdr *options.HeaderOption
+	combined := r.Intn(6) == 0 // name and type share one multi-line header cell (global Nameline/Typeline)
 	nsheets := 1 + r.Intn(2)
 	for si := 0; si < nsheets; si++ {
 		name := []string{"HeroConf", "ItemConf"}[si]
@@ -93,7 +95,9 @@ func genC02Book(r *rand.Rand) (bookSpec, map[string]string) {
 			c := r.Intn(ncol)
 			switch 2 + r.Intn(3) {
 			case 2:
-				rows[0][c] = rows[0][r.Intn(ncol)]
+				if src := rows[0][r.Intn(ncol)]; src != "" && rows[0][c] != "" {
+					rows[0][c] = src
+				}
 			case 3:
 				for k := range rows {
 					row := append([]string{}, rows[k][:min(c, len(rows[k]))]...)
@@ -113,7 +117,18 @@ func genC02Book(r *rand.Rand) (bookSpec, map[string]string) {
 			}
 		}
 		// sheet-level options that confgen must find again
-		if r.Intn(5) == 0 {
+		if combined {
+			for c := range rows[0] {
+				t := ""
+				if c < len(rows[1]) {
+					t = rows[1][c]
+				}
+				if rows[0][c] != "" || t != "" {
+					rows[0][c] = rows[0][c] + "\n" + t
+				}
+			}
+			rows = append([][]string{rows[0]}, rows[2:]...)
+		} else if r.Intn(5) == 0 {
 			meta["Transpose"] = "true"
 			rows = transposeRows(rows)
 		}
@@ -134,7 +149,16 @@ func genC02Book(r *rand.Rand) (bookSpec, map[string]string) {
 		}
 		b.Sheets = append(b.Sheets, sheetSpec{Name: name, Rows: rows, Meta: meta})
 	}
-	if r.Intn(5) == 0 {
+	if combined {
+		hdr = &options.HeaderOption{NameRow: 1, TypeRow: 1, NoteRow: 2, DataRow: 3, NameLine: 1, TypeLine: 2}
+		if r.Intn(2) == 0 {
+			// the book moves its header rows down by a remark line and keeps relying on the global lines
+			b.BookMeta = map[string]string{"Namerow": "2", "Typerow": "2", "Noterow": "3", "Datarow": "4"}
+			for i := range b.Sheets {
+				b.Sheets[i].Rows = append([][]string{{"# remark"}}, b.Sheets[i].Rows...)
+			}
+		}
+	} else if r.Intn(5) == 0 {
 		// book-level ('#') header options: rows shifted down by a remark line
 		b.BookMeta = map[string]string{"Namerow": "2", "Typerow": "3", "Noterow": "4", "Datarow": "5"}
 		for i := range b.Sheets {
@@ -186,12 +210,15 @@ func c02Witness(kind string) bookSpec {
 	panic("unknown witness " + kind)
 }
 
-func runClosure(b bookSpec) string {
+func runClosure(b bookSpec, hdr ...*options.HeaderOption) string {
 	w := newWorkspace()
 	defer w.cleanup()
 	w.writeCSVBook("", baseBook())
 	w.writeCSVBook("", b)
 	ro := runOpts{}
+	if len(hdr) > 0 {
+		ro.Header = hdr[0]
+	}
 	if err := w.genProto(ro); err != nil {
 		return "closed rejected"
 	}
@@ -234,7 +261,7 @@ func init() {
 	})
 	regImpl("c02.closure", func(a []string) string {
 		r := rand.New(rand.NewSource(mustInt(a[0])))
-		b, _ := genC02Book(r)
-		return runClosure(b)
+		b, hdr := genC02Book(r)
+		return runClosure(b, hdr)
 	})
 }
